@@ -104,7 +104,7 @@ pub fn judge_frame(rep: &mut Report, si: &StreamInfo, fb: &[u8], refinfo: Option
     let csi = crate_streaminfo(si, nominal_bs);
     let replay = || J::obj().set("origin", origin).set("streaminfo", format!("{si:?}")).set("frame", J::hex(&fb[..fb.len().min(40000)]));
     // structural parser
-    let structural = mon::guard(|| Frame::read(&mut Cursor::new(fb), &csi).map_err(|e| format!("{e:?}")));
+    let structural = mon::guard(|| Frame::read(&mut Cursor::new(fb), &csi).map_err(|e| crate::api::show(&e)));
     // streaming decoder on the same frame wrapped as a one-frame file
     let file = one_frame_file(si, nominal_bs, fb);
     let streaming = mon::guard(|| decode_all(Cursor::new(&file[..]), Rd::SampleRead, 1 << 20));
@@ -215,7 +215,7 @@ pub fn judge_frame(rep: &mut Report, si: &StreamInfo, fb: &[u8], refinfo: Option
     let canonical = refinfo.map(|f| f.number_minimal && f.padding_zero && !f.reserved_bit).unwrap_or(false);
     let rewritten = mon::guard(|| {
         let mut out = vec![];
-        frame.write(&csi, &mut out).map(|()| out).map_err(|e| format!("{e:?}"))
+        frame.write(&csi, &mut out).map(|()| out).map_err(|e| crate::api::show(&e))
     });
     match rewritten {
         Err(p) => rep.violation("panic", format!("Frame::write:{}", p.signature()), format!("{origin}: {} at {}", p.msg, p.location), replay()),
@@ -409,7 +409,7 @@ pub fn run_c19(ctx: &Ctx, rep: &mut Report) {
         let bytes = match mon::guard(|| encode(&cfg, front, &pcm)) {
             Ok(Ok(b)) => b,
             Ok(Err(e)) => {
-                rep.violation("encode-error", format!("encode-error:{}", err_name(&e.err)), format!("{e:?}"), replay());
+                rep.violation("encode-error", format!("encode-error:{}", err_name(&e.err)), crate::api::show(&e), replay());
                 continue;
             }
             Err(p) => {
